@@ -1,5 +1,6 @@
 import Jose.Err
 import Jose.Bytes
+import Jose.PyVal
 /-! Wire format helpers for the line protocol (IO side only; nothing in `Props` depends on this). -/
 namespace Driver
 open Jose
@@ -33,5 +34,83 @@ def showRes (r : Except Err String) : String :=
   match r with
   | .ok s => "ok " ++ s
   | .error e => "err " ++ e.name
+
+end Driver
+
+namespace Driver
+open Jose
+
+/-! ## JVal wire format: comma-separated prefix tokens
+`N` `T` `F` `I<int>` `R<num>/<den>` `S<hex-utf8>` `A<n>,…` `O<n>,S<key>,<val>,…` -/
+
+def strToHex (s : String) : String := bytesToHex (s.toUTF8.toList.map (·.toNat))
+
+def hexToStr (h : String) : Option String := do
+  let bs ← hexToBytes h
+  String.fromUTF8? (ByteArray.mk (bs.map (·.toUInt8)).toArray)
+
+partial def encodeJVal : JVal → List String
+  | .null => ["N"]
+  | .bool true => ["T"]
+  | .bool false => ["F"]
+  | .int i => ["I" ++ toString i]
+  | .float n d => ["R" ++ toString n ++ "/" ++ toString d]
+  | .str s => ["S" ++ strToHex s]
+  | .arr xs => ("A" ++ toString xs.length) :: (xs.map encodeJVal).flatten
+  | .obj kvs => ("O" ++ toString kvs.length) :: (kvs.map fun kv => ("S" ++ strToHex kv.1) :: encodeJVal kv.2).flatten
+
+def showJVal (v : JVal) : String := ",".intercalate (encodeJVal v)
+
+mutual
+partial def parseJVal : List String → Option (JVal × List String)
+  | [] => none
+  | t :: rest =>
+    let body := (t.drop 1).toString
+    match t.front with
+    | 'N' => some (JVal.null, rest)
+    | 'T' => some (JVal.bool true, rest)
+    | 'F' => some (JVal.bool false, rest)
+    | 'I' => body.toInt?.map fun i => (JVal.int i, rest)
+    | 'R' =>
+      match body.splitOn "/" with
+      | [n, d] => do some (JVal.float (← n.toInt?) (← d.toNat?), rest)
+      | _ => none
+    | 'S' => (hexToStr body).map fun s => (JVal.str s, rest)
+    | 'A' => do
+      let n ← body.toNat?
+      let (xs, rest') ← parseN n rest
+      some (JVal.arr xs, rest')
+    | 'O' => do
+      let n ← body.toNat?
+      let (kvs, rest') ← parseKV n rest
+      some (JVal.obj kvs, rest')
+    | _ => none
+partial def parseN : Nat → List String → Option (List JVal × List String)
+  | 0, rest => some ([], rest)
+  | n + 1, rest => do
+    let (v, rest') ← parseJVal rest
+    let (vs, rest'') ← parseN n rest'
+    some (v :: vs, rest'')
+partial def parseKV : Nat → List String → Option (List (String × JVal) × List String)
+  | 0, rest => some ([], rest)
+  | n + 1, rest => do
+    let (k, rest1) ← parseJVal rest
+    let (v, rest2) ← parseJVal rest1
+    let (kvs, rest3) ← parseKV n rest2
+    match k with
+    | JVal.str s => some ((s, v) :: kvs, rest3)
+    | _ => none
+end
+
+def readJVal (s : String) : Option JVal :=
+  match parseJVal (s.splitOn ",") with
+  | some (v, []) => some v
+  | _ => none
+
+/-- `-` = None, otherwise comma-separated hex strings. -/
+def readOptStrList (s : String) : Option (Option (List String)) :=
+  if s = "-" then some none
+  else if s = "[]" then some (some [])
+  else (s.splitOn ",").mapM hexToStr |>.map some
 
 end Driver
